@@ -6,6 +6,12 @@ CHECKS = {
             'field read/write-set (effect) analysis over all accumulator classes + CFG must-pass queries + table agreement'),
     'C05': ('every failure store is followed by notify_all on both queue conditions on all paths; failure stored before stop announced; enqueue_done true once a failure is recorded; producer waits re-check the stop flag; timed-out waits reach only raise TimeoutError; maybe_stop wakes both sides; consumer iterators stop queue and pool on every exceptional path',
             'CFG must-pass-through path queries with interprocedural must-notify summaries over the lockset engine'),
+    'C07': ('each confusion-matrix rate reached from the dispatch equals its textbook rational function incl. zero-denominator convention; the four counts are exactly the minterms of (true, positive) with correct provenance; aliases agree; every enum member is dispatched; per-row retrieval rates equal their definitions with arguments in the right roles and are stored under their own key; one-shot API passes its own member and forwards every parameter; closed-form statistics (MeanState, Tjur, Pearson, SPD)',
+            'symbolic extraction into exact rational-function normal forms (uninterpreted safe_divide/sqrt/min), boolean minterm evaluation, table agreement'),
+    'C09': ('SequenceDataSource.shard is the balanced contiguous partition for ALL n,K,k,offset and nesting (start_k=S+k*q+min(k,r), end_k=start_{k+1}); shard state record/replay agree field-for-field incl. parent chain; __len__ and iteration bounds agree; every consumed element advances the index once; round-robin test is index % num_shards != shard_index',
+            'symbolic loop acceleration into piecewise-affine min/bracket terms decided by exhaustive region enumeration; table agreement; CFG pairing queries'),
+    'C10': ('restored position equals captured position for every generation (polynomial identity over the shard summary); checkpoints are deep copies; restore is structure preserving; checkpoints are not read from iterators that escaped to pool threads',
+            'affine symbolic relation over extracted expressions; AST/CFG structural rules; intra-class escape analysis'),
     'C11': ('merge never mutates an operand-owned object; operand-aliasing fields are never mutated in place; result() is side-effect free and no cached_property caches merge-updated fields; empty operand accepted wherever an empty receiver is; merge_states only mutates the first state',
             'effect/alias (taint) analysis of every merge-like method, interprocedural through self methods'),
     'C04': ('lockset + CFG analysis of IteratorQueue: CV discipline per calling context, predicate loops, lock balance, lock-order acyclicity, wake-up obligations, end-of-stream payload, single transfer through put/get wrappers',
